@@ -189,7 +189,7 @@ Qed.
 Theorem projection_exact : forall (A : Type) (d : A) cols ret fields (ev : bytes -> A),
   (* every returned cell holds the value of the column it is named after, and names an input column *)
   (forall name val, In (name, val) (flow_row d cols cols ret fields ev) -> val = ev name /\ In name cols) /\
-  (* a RETURN list admits only core columns and requested schema fields *)
+  (* a RETURN list lets through only core columns and requested schema fields *)
   (forall fs name val, ret = Some fs -> fs <> [] -> In (name, val) (flow_row d cols cols ret fields ev) ->
      is_core name = true \/ (In name fs /\ mem_bytes name fields = true)) /\
   (* core columns are never dropped *)
